@@ -3,7 +3,7 @@ from . import cacheworld as cw
 
 PROP = 'C03'
 PROFILE = 'c03'
-QUICK = (96, 60, 60.0)
+QUICK = (72, 60, 60.0)
 THOROUGH = (160, 100, 840.0)
 boot, execute, cfg_sig, nontrivial = cw.boot, cw.execute, cw.cfg_sig, cw.nontrivial
 SHRINK_LISTS, SHRINK_DICTS = cw.SHRINK_LISTS, cw.SHRINK_DICTS
@@ -31,6 +31,8 @@ def enumeration_base(plan):
 
 
 def enumerate_variants(base, bres, rng, tier):
+  if bres.get('sim_seconds', 0) > 400:
+    return          # very long base run (instrumentation ticks): not worth 30 re-executions
   k = min(int(bres.get('db_calls', 0)), 60 if tier == 'thorough' else 20)
   kinds = ['ioerror', 'enospc', 'runtime']
   for i in range(k):
